@@ -155,8 +155,12 @@ def index_repr(ix):
 
 # ----------------------------------------------------------------------------- random trees
 class Node:
+    created = None          # when a list: every node built since it was set (operands of later operations)
+
     def __init__(self, e, v, kind, desc):
-        self.e, self.v, self.kind, self.desc = e, np.asarray(v, dtype=float), kind, desc
+        self.e, self.v, self.kind, self.desc = e, np.array(v, dtype=float), kind, desc      # own copy of the NumPy value
+        if Node.created is not None:
+            Node.created.append(self)
 
 
 def leaf(env):
